@@ -582,11 +582,15 @@ public:
     return true;
   }
 
-  Interval() {
+  // Note: the boundaries are value-initialized, since an unbounded
+  // boundary may be encoded in `Info' only, leaving its value untouched.
+  Interval()
+    : lower_(), upper_() {
   }
 
   template <typename T>
-  explicit Interval(const T& x) {
+  explicit Interval(const T& x)
+    : lower_(), upper_() {
     assign(x);
   }
 
